@@ -458,7 +458,7 @@ class _HolderModule(torch.nn.Module):
     """module-level (picklable) holder of one pp.Parameter"""
     def __init__(self, x):
         super().__init__()
-        self.p = pp().Parameter(x)
+        self.vfh06_p = pp().Parameter(x)          # (48) collision-proof name on a subclass of a library class
 
 
 def stream_copies(ctx):
@@ -553,25 +553,25 @@ def stream_copies(ctx):
                 m3 = copy.deepcopy(m1)
                 m4 = rt_pickle(m1)
                 for nm, mm in (("load_state_dict", m2), ("deepcopy(module)", m3)):
-                    if type(mm.p) is not P.Parameter or mm.p.ltype is not X.ltype or not _eq(mm.p, X) or mm.p.data_ptr() == m1.p.data_ptr():
-                        ctx.fail(case | {"method": nm}, f"copies: {nm} of a module holding a {lt} Parameter gives {type(mm.p).__name__} ltype "
-                                                        f"{ltype_name(getattr(mm.p, 'ltype', None))} (or shares storage)")
-                if type(m4.p) is torch.nn.Parameter:
+                    if type(mm.vfh06_p) is not P.Parameter or mm.vfh06_p.ltype is not X.ltype or not _eq(mm.vfh06_p, X) or mm.vfh06_p.data_ptr() == m1.vfh06_p.data_ptr():
+                        ctx.fail(case | {"method": nm}, f"copies: {nm} of a module holding a {lt} Parameter gives {type(mm.vfh06_p).__name__} ltype "
+                                                        f"{ltype_name(getattr(mm.vfh06_p, 'ltype', None))} (or shares storage)")
+                if type(m4.vfh06_p) is torch.nn.Parameter:
                     ctx.count("copies.observation.pickle_of_module_gives_nn.Parameter")
-                    if getattr(m4.p, "ltype", None) is not X.ltype or not torch.equal(m4.p.detach(), X.tensor()):
+                    if getattr(m4.vfh06_p, "ltype", None) is not X.ltype or not torch.equal(m4.vfh06_p.detach(), X.tensor()):
                         ctx.fail(case | {"method": "pickle(module)"}, f"copies: pickle of a module holding a {lt} Parameter lost values / ltype attribute")
-                elif type(m4.p) is not P.Parameter or not _eq(m4.p, X):
+                elif type(m4.vfh06_p) is not P.Parameter or not _eq(m4.vfh06_p, X):
                     ctx.fail(case | {"method": "pickle(module)"}, f"copies: pickle of a module holding a {lt} Parameter loses the Parameter / values")
-                elif m4.p.ltype is not X.ltype:
+                elif m4.vfh06_p.ltype is not X.ltype:
                     ctx.fail(case | {"method": "pickle", "defect": "ltype-not-singleton"},
-                             f"copies-ltype: pickle of a module holding a {lt} Parameter carries a NEW {type(m4.p.ltype).__name__} object as ltype")
+                             f"copies-ltype: pickle of a module holding a {lt} Parameter carries a NEW {type(m4.vfh06_p.ltype).__name__} object as ltype")
                 with torch.no_grad():
-                    m3.p.tensor()[0] += 1
-                if not _eq(m1.p, X):
+                    m3.vfh06_p.tensor()[0] += 1
+                if not _eq(m1.vfh06_p, X):
                     ctx.fail(case, "copies: updating the deep copy of a module changed the original's Parameter")
                 m5 = copy.deepcopy(m1).float()
-                if type(m5.p) is not P.Parameter or m5.p.ltype is not X.ltype or m5.p.dtype != torch.float32:
-                    ctx.fail(case | {"method": "module.float()"}, f"copies: module.float() gives {type(m5.p).__name__} ltype {ltype_name(getattr(m5.p, 'ltype', None))} {m5.p.dtype}")
+                if type(m5.vfh06_p) is not P.Parameter or m5.vfh06_p.ltype is not X.ltype or m5.vfh06_p.dtype != torch.float32:
+                    ctx.fail(case | {"method": "module.float()"}, f"copies: module.float() gives {type(m5.vfh06_p).__name__} ltype {ltype_name(getattr(m5.vfh06_p, 'ltype', None))} {m5.vfh06_p.dtype}")
             except Exception as e:
                 ctx.fail(case, f"raises: module copies with a {lt} Parameter raise {type(e).__name__}: {str(e)[:80]}")
 
